@@ -89,6 +89,8 @@ xml_get_val_arr(const uint8_t *xml_data, size_t xml_data_size,
 	size_t cur_tag = 0, data_avail, attr_size = 0;
 	ssize_t level = 0;
 
+	if (NULL != next_pos && (xml_data + xml_data_size) == (*next_pos))
+		return (ESPIPE); /* Prev call reached the end: no more data. */
 	if (NULL != next_pos && xml_data <= (*next_pos) &&
 	    (xml_data + xml_data_size) > (*next_pos)) {
 		TagEnd = (*next_pos);
@@ -151,6 +153,10 @@ xml_get_val_arr(const uint8_t *xml_data, size_t xml_data_size,
 			level --;
 			if (0 <= level) /* Close some sub tag. */
 				continue;
+			if (0 == cur_tag) { /* Stray close tag: nothing is open. */
+				level = 0;
+				continue;
+			}
 			if (0 != mem_cmpn(tag_arr[(cur_tag - 1)], tag_arr_cnt[(cur_tag -1)],
 			    (TagStart + 1), (size_t)(TagEnd - TagStart))) /* Is name close qual name open? */
 				continue;
@@ -537,6 +543,8 @@ xml_get_val_ns_arr(const uint8_t *xml_data, size_t xml_data_size,
 		return (EINVAL);
 
 	memset(ret_ns_size, 0x00, (sizeof(size_t) * tag_arr_count));
+	if (NULL != next_pos && (xml_data + xml_data_size) == (*next_pos))
+		return (ESPIPE); /* Prev call reached the end: no more data. */
 	if (NULL != next_pos && xml_data <= (*next_pos) &&
 	    (xml_data + xml_data_size) > (*next_pos)) {
 		TagEnd = (*next_pos);
@@ -601,6 +609,10 @@ xml_get_val_ns_arr(const uint8_t *xml_data, size_t xml_data_size,
 			//LOG_EV_FMT("tag cmp (%zu) = %s", ((TagEnd + 1) - TagNameStart), TagNameStart);
 			if (0 <= level) /* Close some sub tag. */
 				continue;
+			if (0 == cur_tag) { /* Stray close tag: nothing is open. */
+				level = 0;
+				continue;
+			}
 			if (0 != ret_ns_size[(cur_tag - 1)]) { /* Fix name space. */
 				TagNameStart += (ret_ns_size[(cur_tag - 1)] + 1); /* = 'ns' + ':' */
 			}
@@ -669,6 +681,8 @@ xml_get_val_ns_arr(const uint8_t *xml_data, size_t xml_data_size,
 			//LOG_EV_FMT("tag cmp (%zu) = %s", ((TagNameEnd + 1) - TagNameStart), TagNameStart);
 			if (1 != level &&
 			    0 == ee) /* Open some sub tag. */
+				continue;
+			if (cur_tag >= tag_arr_count) /* Sub tag inside target tag value. */
 				continue;
 			NameSpEnd = mem_chr(TagNameStart,
 			    (size_t)((TagNameEnd + 1) - TagNameStart), ':');
